@@ -20,7 +20,7 @@ def run(tier, replay):
     work = V.scratch()
     bins = V.build(["dbt"], work)
     nontrivial = set()
-    modes = [("ttl", c.seed + i, []) for i in range(1 if tier == "quick" else 5)]
+    modes = [("ttl", c.seed, [6])] if tier == "quick" else [("ttl", c.seed * 100 + i, [60]) for i in range(4)]     # the argument: seeded random variations
     dbtrace.CLASSES["C19"] = ("expire:", "expire", "reload:")
     dbtrace.run_modes(c, "C19", bins, work, modes, nontrivial)
     c.cov["rule"] = ("5 index sets x 2 rounds x 2 namespaces with a pool of 20 value shapes per TTL field, plus 4 TTL collections with nothing to expire, 2 passes each, and one "
